@@ -17,7 +17,7 @@ NA = {
 CHECKS = {
  "C01": dict(cat="exploration", ref="DESIGN.md 3 (C01)", technique="seeded storage-configuration simulation (fault-free arm) vs reference writer/loader",
    text="seeded exploration of the storage-layout configuration space: every run writes one generated FCS file to the simulated disk and loads it through the real reader; strict equality with writer ground truth and with an independent reference loader; refused layouts must raise. Evidence bounded by the run count; not a proof.",
-   note="trusted: models/fcs_ref.py (independent encoder/decoder), NumPy; NaN payloads not generated; non-power-of-two ranges limited to < 2^44"),
+   note="trusted: models/fcs_ref.py (independent encoder/decoder), NumPy; NaN payloads not generated; non-power-of-two ranges generated below 2^52 (the reader parses $PnR through a float)"),
  "C16": dict(cat="fault_enumeration", ref="DESIGN.md 3 (C16)", technique="deterministic simulation: crash-during-copy at every byte offset + structural field faults on a simulated disk, oracle = ground truth or reference loader",
    text="per generated file, every crash point of an interrupted copy (exhaustive 0..len) and every listed structural field x {smaller, larger, +1, -1}, alone and composed, over seeded layouts incl. TEXT-like segments last in file; outcome must be an exception, the intact content, or the reference reading of self-consistent bytes.",
    note="trusted: reference loader implements the documented rules (incl. one-past-end DATA convention and the tolerated TEXT ending); garbage blocks of correct length, short reads, EIO not modelled"),
